@@ -40,6 +40,12 @@ static void pair(const char *ltag, uint32_t lnum, const char *dtag, uint32_t dnu
   t2[0] = (uint8_t)dtag[0]; t2[1] = (uint8_t)dtag[1];
   for (int j = 0; j < NDATA; j++) if (j < NSEL) v2[j] = cx_data[j];
   k_data = TK_n; TK_add(1, dnum, t2, 2, v2, NSEL, (uint32_t)(2 + 1 + NSEL + 1)); TK_isdata[k_data] = 1;
+#if defined(KF_SIG_PAIR) && PLACE == 2
+  /* known finding: MessageBase::decode pairs a Length field only with the data field whose tag is the Length tag + 1; SignatureLength(93) /
+     Signature(89) is not such a pair, so the value is read by the byte tokenizer and ends at its first SOH.  Complement: values without SOH,
+     for which the byte tokenizer's contract yields the same token. */
+  { int hassoh = 0; for (int j = 0; j < NDATA; j++) if (j < NSEL && cx_data[j] == SOH) hassoh = 1; VF_ASSUME(!hassoh); }
+#endif
 }
 static int run(void)
 {
